@@ -9,7 +9,7 @@ from __future__ import annotations
 import json
 
 from .. import pkggen as pg
-from ..core import Check, Viol, drive, gated_features, generic_replay, rng_for
+from ..core import Check, Viol, drive, gated_features, generic_replay, rng_for, noise_opts
 from ..run import Case
 
 PID = "C12"
@@ -42,7 +42,7 @@ def gen(tier: str, seed: int) -> list[Case]:
         pkg = pg.random_pkg(rng, cfg)
         add_inheritance(rng, pkg)
         add_defaults(rng, pkg)
-        cases.append(Case(cid=f"c12-{i}", files=pg.render(pkg), opts=["-nc"] if i % 4 == 3 else [], meta={"pkg": pkg}, reach=REACH))
+        cases.append(Case(cid=f"c12-{i}", files=pg.render(pkg), opts=(["-nc"] if i % 4 == 3 else []) + noise_opts(seed, PID, i), meta={"pkg": pkg}, reach=REACH))
     return cases
 
 
